@@ -761,7 +761,8 @@ LoopC(st, env, s, fuel) ==
 EntryAt(c, pos, snap, s) ==    \* returns [ok, key, val]; pos is 0-based
   CASE c.t = "list" -> LET items == Items(c, s) IN
           IF pos >= Len(items) THEN [ok |-> FALSE] ELSE [ok |-> TRUE, key |-> VInt(pos), val |-> items[pos+1]]
-    [] c.t = "int" -> IF pos >= Abs(c.v) THEN [ok |-> FALSE] ELSE [ok |-> TRUE, key |-> VInt(pos), val |-> VInt(pos)]
+    [] c.t = "int" -> IF pos >= Abs(c.v) THEN [ok |-> FALSE]   \* a negative count runs 0, -1, ... (object.IntIter)
+                     ELSE [ok |-> TRUE, key |-> VInt(pos), val |-> VInt(IF c.v < 0 THEN 0 - pos ELSE pos)]
     [] c.t = "str" -> IF pos >= Len(c.v) THEN [ok |-> FALSE] ELSE [ok |-> TRUE, key |-> VInt(pos), val |-> VStr(<<c.v[pos+1]>>)]
     [] c.t = "map" -> IF pos >= Len(snap) THEN [ok |-> FALSE]
           ELSE IF snap[pos+1] \notin DOMAIN MapOf(c, s) THEN [ok |-> TRUE, key |-> VUnset, val |-> VUnset]
